@@ -433,6 +433,8 @@ func runC14(c *Ctx) {
 		c.Floor("O10", "DOM whole-GPU effects in "+name, n, 2)
 	}
 	runC14GlobalGuards(c, "O11")
+	runC14GroupBoundary(c)
+	runC14AddTaskIndex(c)
 
 	// O6: status lattice
 	runStatusConsts(c, "O6")
@@ -482,4 +484,123 @@ func runC14GlobalGuards(c *Ctx, ob string) {
 		}
 	}
 	c.Floor(ob, "DOM Idle effects of shared-GPU add/remove", n, 4)
+}
+
+// includesEquality: the comparison fact holds when both sides are equal.
+func includesEquality(f Fact) bool {
+	switch f.T.Name {
+	case "<=", ">=", "==":
+		return f.Pol
+	case "<", ">", "!=":
+		return !f.Pol
+	}
+	return false
+}
+
+// runC14GroupBoundary (O12): the whole GPU changes hands exactly AT the boundary of the group's used memory. The
+// remove side hands the device back when the group's used memory has reached 0 — the guard must hold at 0, a strict
+// "< 0" never fires for the last sharer; the add side takes it when the used memory equals the request just added
+// (first sharer) — the guard must hold at equality.
+func runC14GroupBoundary(c *Ctx) {
+	p := c.P
+	n := 0
+	for _, name := range []string{"addSharedTaskResourcesPerPodGroup", "removeSharedTaskResourcesPerPodGroup"} {
+		fn := p.Func(pkgNodeInfo, "NodeInfo", name)
+		if fn == nil {
+			c.Undec("O12", "ANCHOR", name, 0, "not found")
+			continue
+		}
+		isAdd := strings.HasPrefix(name, "add")
+		for _, h := range p.deepFind(fn, func(in ssa.Instruction) bool {
+			cc, ok := in.(ssa.CallInstruction)
+			if !ok || calleeOf(cc) == nil {
+				return false
+			}
+			want := "AddGPUs"
+			if isAdd {
+				want = "SubGPUs"
+			}
+			return calleeOf(cc).Name() == want && termOf(cc.Common().Args[0]).lastField() == "Idle"
+		}, 1) {
+			n++
+			fs := c.Fx.factsAtDeep(h)
+			isUsed := func(t *Term) bool {
+				return t.contains(func(x *Term) bool { return x.Op == "lookup" && x.Args[0].lastField() == "UsedSharedGPUsMemory" })
+			}
+			d, ok := hasFact(fs, func(f Fact) bool {
+				if f.T.Op != "bin" || len(f.T.Args) != 2 || !includesEquality(f) {
+					return false
+				}
+				l, r := f.T.Args[0], f.T.Args[1]
+				if !isAdd {
+					// used[g] against 0
+					return (isUsed(l) && r.String() == "const:0") || (isUsed(r) && l.String() == "const:0")
+				}
+				// used[g] against the request's memory (the amount just added), or used[g] − request against 0
+				isReq := func(t *Term) bool {
+					return t.contains(func(x *Term) bool { return x.Op == "call" && x.Fn != nil && x.Fn.Name() == "GetResourceGpuMemory" })
+				}
+				// (the Releasing arm: the group's used memory against its releasing memory — all sharers are releasing)
+				isRel := func(t *Term) bool {
+					return t.contains(func(x *Term) bool { return x.Op == "lookup" && x.Args[0].lastField() == "ReleasingSharedGPUsMemory" })
+				}
+				if (isUsed(l) && isRel(r)) || (isUsed(r) && isRel(l)) {
+					return true
+				}
+				return (isUsed(l) && isReq(r) && !isUsed(r)) || (isUsed(r) && isReq(l) && !isUsed(l)) ||
+					(isUsed(l) && isReq(l) && r.String() == "const:0") || (isUsed(r) && isReq(r) && l.String() == "const:0")
+			})
+			what, bad := "the group's used memory has reached 0 (guard holds at 0)", "the guard on the group's used memory does not hold when it is exactly 0: the last sharer never hands the device back to Idle — every undone fractional allocation leaks one idle GPU for the rest of the cycle"
+			if isAdd {
+				what, bad = "the group's used memory equals the request just added (guard holds at equality)", "the guard on the group's used memory does not hold when it equals the request just added: the first sharer of an idle device does not take it out of Idle and the device is handed out twice"
+			}
+			cc := h.In.(ssa.CallInstruction)
+			c.Check(ok, "O12", "DOM", fmt.Sprintf("%s: Idle.%s(1) happens when %s", funcKey(fn), calleeOf(cc).Name(), what), instrPos(h.In), trunc(d, 140), bad)
+		}
+	}
+	c.Floor("O12", "DOM boundary guards of Idle effects", n, 4)
+}
+
+// runC14AddTaskIndex (O13): NodeInfo.addTask charges the pod's resources to the node and files a copy under the pod's
+// key. A pod that is already filed must be refused — its resources would be charged twice while the index holds one
+// copy — except for the one deliberate case: moving a shared-GPU pod to another GPU of the node, asked for by the
+// caller (allowTaskToExistOnDifferentGPU) AND only for a shared-GPU allocation.
+func runC14AddTaskIndex(c *Ctx) {
+	f := c.Anchor("O13", pkgNodeInfo, "NodeInfo", "addTask")
+	if f == nil {
+		return
+	}
+	isDelete := func(in ssa.Instruction) bool {
+		cc, ok := in.(ssa.CallInstruction)
+		if !ok {
+			return false
+		}
+		b, isB := cc.Common().Value.(*ssa.Builtin)
+		return isB && b.Name() == "delete" && len(cc.Common().Args) == 2 && termOf(cc.Common().Args[0]).lastField() == "PodInfos"
+	}
+	nd := 0
+	for _, in := range instrsIn(f, isDelete) {
+		nd++
+		fs := c.Fx.FactsAt(in)
+		_, allow := hasFact(fs, func(ft Fact) bool { return ft.Pol && ft.T.Op == "param" && rootParam(ft.T) == 2 })
+		_, shared := hasFact(fs, func(ft Fact) bool { return ft.Pol && ft.T.Op == "call" && strings.HasSuffix(ft.T.Name, "IsSharedGPUAllocation") })
+		c.Check(fs.Bottom || (allow && shared), "O13", "DOM", funcKey(f)+": an indexed copy is replaced only for the requested move of a shared-GPU pod", instrPos(in), "allowTaskToExistOnDifferentGPU ∧ IsSharedGPUAllocation()",
+			"the copy a node holds of a pod can be dropped from the index without the caller asking for a move, or for a pod that is not a shared-GPU allocation (facts: "+factKeys(fs)+"): its resources stay charged and are charged again — one pod, double Used / shared-GPU memory, which no undo repairs")
+	}
+	ni := 0
+	for _, in := range instrsIn(f, func(in ssa.Instruction) bool {
+		m, ok := in.(*ssa.MapUpdate)
+		return ok && termOf(m.Map).lastField() == "PodInfos"
+	}) {
+		ni++
+		ins := in
+		_, path, found := reachAvoiding([]cfgPos{entryPos(f)}, func(x ssa.Instruction) bool { return x == ins }, isDelete, func(from, to *ssa.BasicBlock) bool {
+			return !c.Fx.edgeEstablishes(from, to, func(ft Fact) bool {
+				return !ft.Pol && ft.T.Op == "extract" && ft.T.Name == "1" && len(ft.T.Args) == 1 && ft.T.Args[0].Op == "lookup" && ft.T.Args[0].Args[0].lastField() == "PodInfos"
+			})
+		})
+		c.Check(!found, "O13", "MPT", funcKey(f)+": a pod is filed only if it was not filed before (or its copy was deliberately replaced)", instrPos(in), "behind !found or the requested replacement",
+			"a pod can be filed and charged although the node already holds it ("+pathStr(path)+")")
+	}
+	c.Floor("O13", "DOM/MPT index writes of addTask", nd+ni, 2)
 }
